@@ -192,3 +192,59 @@ func (p *Pool) push(x any) {
 type Map = sync.Map
 
 func OnceFunc(f func()) func() { return sync.OnceFunc(f) }
+
+// Cond: a FIFO of waiters, each parked on its own one-slot channel; Signal hands a token to the
+// longest waiter (as the runtime's notify list does), Broadcast to all. The channel operations
+// are ordinary schedule points of the controlled scheduler, and a real send/receive pair is
+// exactly the "Signal synchronizes before the Wait it unblocks" edge of the memory model.
+type Cond struct {
+	L Locker
+
+	qmu sync.Mutex // protects q in pass-through mode; uncontended under the cooperative scheduler
+	q   [condMaxWaiters]chan struct{}
+	n   int
+}
+
+const condMaxWaiters = 64
+
+func NewCond(l Locker) *Cond { return &Cond{L: l} }
+
+func (c *Cond) Wait() {
+	ch := make(chan struct{}, 1)
+	c.qmu.Lock()
+	if c.n == condMaxWaiters {
+		c.qmu.Unlock()
+		panic("vsync.Cond: too many waiters for the harness")
+	}
+	c.q[c.n] = ch
+	c.n++
+	c.qmu.Unlock()
+	c.L.Unlock()
+	vsched.Recv(ch)
+	c.L.Lock()
+}
+
+func (c *Cond) pop() chan struct{} {
+	c.qmu.Lock()
+	defer c.qmu.Unlock()
+	if c.n == 0 {
+		return nil
+	}
+	ch := c.q[0]
+	copy(c.q[:], c.q[1:c.n])
+	c.n--
+	c.q[c.n] = nil
+	return ch
+}
+
+func (c *Cond) Signal() {
+	if ch := c.pop(); ch != nil {
+		vsched.Send(ch, struct{}{})
+	}
+}
+
+func (c *Cond) Broadcast() {
+	for ch := c.pop(); ch != nil; ch = c.pop() {
+		vsched.Send(ch, struct{}{})
+	}
+}
